@@ -348,6 +348,7 @@ func main() {
 	maxReq := flag.Int("maxreq", 1000, "max requests per run")
 	only := flag.Int("only", -1, "run only the case with this index (same seed, same script)")
 	buildfail := flag.Int("buildfail", 0, "N: requests per configuration through the real tcp/udp/icmp fillers, one in seven unbuildable")
+	poolrace := flag.Int("poolrace", 0, "K: runs with 64 generator workers and thousands of error-free requests (buffer pool under the highest turnover)")
 	flag.Parse()
 	if *buildfail > 0 {
 		runBuildFail(*out, *buildfail)
@@ -364,6 +365,15 @@ func main() {
 			w.Flush()
 		}
 		idx++
+	}
+	if *poolrace > 0 {
+		for i := 0; i < *poolrace; i++ {
+			n := []int{64, 16, 64, 7}[i%4]
+			reqs := genReqs(r, 3000+r.Intn(3000), 0, 0, 0)
+			slow := i%3 == 2
+			put(func() obs { return runCase(idx, "poolrace", n, 100, reqs, -1, slow) })
+		}
+		return
 	}
 	// fixed small cases first
 	put(func() obs { return runCase(idx, "empty", 1, 1, nil, -1, false) })
